@@ -9,7 +9,9 @@
 #include <cstdlib>
 #include <cstring>
 #include <sstream>
+#include <algorithm>
 #include <string>
+#include <unordered_map>
 #include <vector>
 
 namespace ref
@@ -536,6 +538,98 @@ struct MateSolver
     }
 };
 
+// Proof-number-free but ordered mate search for longer announcements: iterative deepening over the number of attacker
+// moves, only checking moves at the last attacker move, defender replies ordered (refutation found earlier first,
+// captures, king moves), results cached per (position, n).  Answers 1 (forced mate within n attacker moves), 0 (none),
+// -1 (node budget exhausted).  The 50-move rule and repetition are ignored (a forced mate never needs them).
+struct MateSearch
+{
+    uint64_t budget, used = 0;
+    std::unordered_map<std::string, int> no_mate_upto;             // position -> largest n proved "no mate within n"
+    std::unordered_map<std::string, RMove> refutation;             // defender position -> reply that held last time
+    explicit MateSearch(uint64_t b) : budget(b) {}
+
+    int solve(Board& b, int n)
+    {
+        for (int k = 1; k <= n; ++k)
+        {
+            int r = att(b, k);
+            if (r != 0) return r;
+        }
+        return 0;
+    }
+    int att(Board& b, int n)
+    {
+        if (n <= 0) return 0;
+        if (++used > budget) return -1;
+        std::string key = b.key4();
+        auto it = no_mate_upto.find(key);
+        if (it != no_mate_upto.end() && it->second >= n) return 0;
+        auto ms = b.legal();
+        if (ms.empty()) return 0;
+        bool undecided = false;
+        // checking moves first; at n == 1 only checking moves can mate
+        std::vector<std::pair<int, RMove>> ord;
+        for (auto& m : ms)
+        {
+            Undo u = b.make(m);
+            bool chk = b.in_check(b.side);
+            b.unmake(m, u);
+            if (n == 1 && !chk) continue;
+            ord.push_back({chk ? 0 : (b.is_capture(m) ? 1 : 2), m});
+        }
+        std::stable_sort(ord.begin(), ord.end(), [](const auto& x, const auto& y) { return x.first < y.first; });
+        for (auto& om : ord)
+        {
+            Undo u = b.make(om.second);
+            int r = def(b, n - 1);
+            b.unmake(om.second, u);
+            if (r == 1) return 1;
+            if (r == -1) undecided = true;
+        }
+        if (undecided) return -1;
+        int& slot = no_mate_upto[key];
+        if (slot < n) slot = n;
+        return 0;
+    }
+    // defender to move; attacker has n more moves after this reply.  1 = every reply loses (or already mated)
+    int def(Board& b, int n)
+    {
+        if (++used > budget) return -1;
+        auto ms = b.legal();
+        bool chk = b.in_check(b.side);
+        if (ms.empty()) return chk ? 1 : 0;
+        if (n <= 0) return 0;
+        std::string key = b.key4();
+        std::vector<std::pair<int, RMove>> ord;
+        auto rf = refutation.find(key);
+        for (auto& m : ms)
+        {
+            int pri = 3;
+            if (rf != refutation.end() && rf->second == m) pri = 0;
+            else if (b.is_capture(m)) pri = 1;
+            else if (kind_of(b.sq[m.from]) == KIND_K) pri = 2;
+            ord.push_back({pri, m});
+        }
+        std::stable_sort(ord.begin(), ord.end(), [](const auto& x, const auto& y) { return x.first < y.first; });
+        bool undecided = false;
+        for (auto& om : ord)
+        {
+            Undo u = b.make(om.second);
+            int r = 0;
+            for (int k = 1; k <= n && r == 0; ++k) r = att(b, k);
+            b.unmake(om.second, u);
+            if (r == 0)
+            {
+                refutation[key] = om.second;
+                return 0;
+            }
+            if (r == -1) undecided = true;
+        }
+        return undecided ? -1 : 1;
+    }
+};
+
 inline bool ref_selftest(std::string& err)
 {
     struct T { const char* fen; int d; uint64_t n; };
@@ -576,6 +670,14 @@ inline bool ref_selftest(std::string& err)
         MateSolver s4, s5;
         if (s4.attacker(e, 1) != 0) { err = "mate solver: false mate in 1 (KQK)"; return false; }
         if (s5.attacker(e, 2) != 1) { err = "mate solver: KQK mate in 2 not found"; return false; }
+        MateSearch q1(2000000), q2(2000000), q3(2000000);
+        Board e2 = e;
+        if (q1.solve(e2, 1) != 0 || q2.solve(e2, 2) != 1) { err = "mate search: KQK mate in 2 (ordered search)"; return false; }
+        Board f("r1bqkb1r/pppp1ppp/2n2n2/4p2Q/2B1P3/8/PPPP1PPP/RNB1K1NR w KQkq - 4 4");
+        if (q3.solve(f, 3) != 1) { err = "mate search: scholar's mate not found"; return false; }
+        Board g0("rnbqkbnr/pppppppp/8/8/8/8/PPPPPPPP/RNBQKBNR w KQkq - 0 1");
+        MateSearch q4(3000000);
+        if (q4.solve(g0, 2) != 0) { err = "mate search: start position has no mate in 2"; return false; }
     }
     return true;
 }
